@@ -274,6 +274,10 @@ var funcs = []fn{
 	{"direct", "*Socks5PacketServerUnpacker", "UnpackInPlace", "Socks5ServerUnpack"},
 	{"httpproxy", "", "hostHeaderToAddr", "hostHeaderToAddr"},
 	{"httpproxy", "", "serverHandleBasicAuth", "serverHandleBasicAuth"},
+	{"dns", "*resultBuilder", "parseMsg", "dnsParseMsg"},
+	{"dns", "*Resolver", "doTCP", "dnsDoTCP"},
+	{"dns", "*Resolver", "sendQueries", "dnsSendQueries"},
+	{"httpproxy", "", "ClientConnect", "httpClientConnect"},
 	{"portset", "*PortSet", "Contains", "PortSetContains"},
 	{"portset", "", "panicOnZeroPort", "panicOnZeroPort"},
 	{"portset", "PortRangeSet", "Contains", "PortRangeSetContains"},
